@@ -3,11 +3,11 @@ CONSTANTS
   NT = 2
   NFiles = 2
   NLinks = 1
-  MayCrash = TRUE
+  MayCrash = FALSE
   Fix_LinksToAll = TRUE
   Fix_ServeAll = TRUE
   Fix_PairByRequest = TRUE
-  Fix_NoPayloadCache = TRUE
+  Fix_NoPayloadCache = FALSE
 INVARIANT Pairing
 INVARIANT CompleteAtReturn
 INVARIANT CallbackAtMostOnce
